@@ -149,14 +149,20 @@ Definition adapt_class (regs : list sroute) (dflt : option Z) (mws : list (Z * b
    pattern, and then the predicate is [dispatch_class] for the path the message
    has NOW; when no route handler ran, the request must be one that no
    registered pattern matches and the default handler must have run.  When a
-   middleware answers itself no handler runs and only the trace is judged. *)
+   middleware answers itself no handler runs and only the trace is judged
+   (nothing at all runs when no default handler is set and nothing matches). *)
 Definition restrict_vars (names : list str) (vars : list (str * str)) : list (str * str) :=
   filter (fun kv => existsb (str_eqb (fst kv)) names) vars.
 
 Definition reuse_class (regs : list sroute) (dflt : option Z) (mws : list (Z * bool))
            (path : str) (trace : list ev) (params : option (str * str * list (str * str))) : N :=
   if negb (snd (passing_prefix mws)) then
-    (if list_eqb ev_eqb trace (spec_trace mws None) then 0%N else 7%N)
+    (if list_eqb ev_eqb trace (spec_trace mws None) then 0%N
+     else match dflt with
+          | None =>   (* no default handler set and nothing matches: nothing to wrap, nothing runs *)
+              if is_nil trace && is_nil (filter (fun r => spec_matches (s_parts r) path) regs) then 0%N else 7%N
+          | Some _ => 7%N
+          end)
   else
     let routed :=
       match params, handlers_of trace with
